@@ -384,6 +384,30 @@ func faultWorker(tier string, shard, nshard int) *WorkerOut {
 			out.Findings = append(out.Findings, Finding{Prop: "C07", Msg: m, Unit: Unit{Opts: DefaultOptions(), History: h, Tag: "healthy"}, Key: key, Extra: wex})
 		}
 	}
+	// first clause on healthy streams with sub-streams idle for any number of batches
+	{
+		n := 0
+		for _, sig := range sigs() {
+			for _, h := range idleGapHistories(sig, thorough) {
+				n++
+				if nshard > 0 && n%nshard != shard {
+					continue
+				}
+				out.Units++
+				out.Transitions += len(h)
+				out.Counters["healthy_idle_gap_streams"]++
+				fc := FaultCase{Healthy: true}
+				wex, _ := json.Marshal(fc)
+				key := fmt.Sprintf("healthy %s stream, a sub-stream idle for %d batches", sig, len(h)-4)
+				wdBegin(Finding{Prop: "C07", Unit: Unit{Opts: DefaultOptions(), History: h, Tag: "healthy-idle"}, Extra: wex, Key: key}, out)
+				viol := runHealthy(h)
+				wdEnd()
+				for _, m := range viol {
+					out.Findings = append(out.Findings, Finding{Prop: "C07", Msg: m, Unit: Unit{Opts: DefaultOptions(), History: h, Tag: "healthy-idle"}, Key: key, Extra: wex})
+				}
+			}
+		}
+	}
 	for _, sig := range sigs() {
 		alpha := faultAlphabet(sig)
 		var prefixes [][]Letter
